@@ -289,6 +289,115 @@ fn cb_step(cap: usize, n: usize, with_hasher: bool) {
 }
 
 // ---------------------------------------------------------------------------------------------
+// C17: differential check.  Two caches built by the same history; every index iteration inside the
+// library draws its own, independent order (the map model's `pick`), so any result that depends
+// on hash-map iteration order (or on the hasher, whose only lawful observable that is) can differ
+// between the two runs; allocation addresses differ between the two caches as well.
+
+static mut LOG2_K: [[u8; 8]; 2] = [[0; 8]; 2];
+static mut LOG2_V: [[u8; 8]; 2] = [[0; 8]; 2];
+static mut LOG2_N: [usize; 2] = [0; 2];
+
+#[derive(Clone, Copy)]
+struct LogCb2(usize);
+impl OnEvictCallback for LogCb2 {
+    fn on_evict<K, V>(&self, key: &K, val: &V) {
+        if core::mem::size_of::<K>() == 1 && core::mem::size_of::<V>() == 1 {
+            unsafe {
+                let i = self.0 & 1;
+                if LOG2_N[i] < 8 {
+                    LOG2_K[i][LOG2_N[i]] = *(key as *const K as *const u8);
+                    LOG2_V[i][LOG2_N[i]] = *(val as *const V as *const u8);
+                }
+                LOG2_N[i] += 1;
+            }
+        }
+    }
+}
+
+fn logs_equal() -> bool {
+    unsafe {
+        let mut ok = LOG2_N[0] == LOG2_N[1];
+        let mut i = 0;
+        while i < 8 {
+            if i < LOG2_N[0] && (LOG2_K[0][i] != LOG2_K[1][i] || LOG2_V[0][i] != LOG2_V[1][i]) {
+                ok = false;
+            }
+            i += 1;
+        }
+        ok
+    }
+}
+
+fn order_diff(cap: usize, n: usize, op: u8) {
+    unsafe {
+        LOG2_N = [0; 2];
+    }
+    let mut a: RawLRU<u8, u8, LogCb2, H> = RawLRU::with_on_evict_cb_and_hasher(cap, LogCb2(0), H::default()).unwrap();
+    let mut b: RawLRU<u8, u8, LogCb2, H> = RawLRU::with_on_evict_cb_and_hasher(cap, LogCb2(1), H::default()).unwrap();
+    let mut m = ML::new();
+    let mut i = 0;
+    while i < n {
+        let k: u8 = kani::any();
+        let v: u8 = kani::any();
+        kani::assume(!m.has(k));
+        let _ = a.put(k, v);
+        let _ = b.put(k, v);
+        m.push_front(k, v);
+        i += 1;
+    }
+    let k: u8 = kani::any();
+    let v: u8 = kani::any();
+    let newcap: usize = kani::any();
+    let res_same = match op {
+        0 => {
+            a.purge();
+            b.purge();
+            true
+        }
+        1 => a.resize(newcap) == b.resize(newcap),
+        2 => {
+            // clone each, then compare the clones and what the next eviction from them reports
+            let mut ca = a.clone();
+            let mut cb = b.clone();
+            let same = snap(&ca).same(&snap(&cb));
+            let ra = ca.put(k, v);
+            let rb = cb.put(k, v);
+            let same2 = match (ra, rb) {
+                (PutResult::Put, PutResult::Put) => true,
+                (PutResult::Update(x), PutResult::Update(y)) => x == y,
+                (PutResult::Evicted { key: k1, value: v1 }, PutResult::Evicted { key: k2, value: v2 }) => k1 == k2 && v1 == v2,
+                _ => false,
+            };
+            core::mem::forget(ca);
+            core::mem::forget(cb);
+            same && same2
+        }
+        3 => a.remove_lru() == b.remove_lru(),
+        4 => {
+            let ra = a.put(k, v);
+            let rb = b.put(k, v);
+            match (ra, rb) {
+                (PutResult::Put, PutResult::Put) => true,
+                (PutResult::Update(x), PutResult::Update(y)) => x == y,
+                (PutResult::Evicted { key: k1, value: v1 }, PutResult::Evicted { key: k2, value: v2 }) => k1 == k2 && v1 == v2,
+                _ => false,
+            }
+        }
+        _ => a.remove(&k) == b.remove(&k),
+    };
+    let state_same = snap(&a).same(&snap(&b)) && a.len() == b.len() && a.cap() == b.cap();
+    witness!(n >= 2, true, "W: at least two entries under two independent index orders");
+    checks! {
+        "[C17] results of the same operation do not depend on index iteration order / allocation addresses" => res_same;
+        "[C17] the state after the same operation does not depend on index iteration order / allocation addresses" => state_same;
+        "[C17] the sequence of eviction-callback invocations does not depend on index iteration order" => logs_equal();
+    }
+    core::mem::forget(a);
+    core::mem::forget(b);
+}
+
+// ---------------------------------------------------------------------------------------------
 // C12: PutResult is structural
 
 fn any_pr() -> (PutResult<u8, u8>, u8, [u8; 3]) {
@@ -792,6 +901,33 @@ macro_rules! misc_family {
             #[kani::unwind(10)]
             pub(crate) fn n100() {
                 super::wt_clone([1, 0, 0])
+            }
+        }
+        pub(crate) mod order {
+            #[kani::proof]
+            #[kani::unwind(9)]
+            pub(crate) fn purge_c2n2() {
+                super::order_diff(2, 2, 0)
+            }
+            #[kani::proof]
+            #[kani::unwind(9)]
+            pub(crate) fn resize_c2n2() {
+                super::order_diff(2, 2, 1)
+            }
+            #[kani::proof]
+            #[kani::unwind(9)]
+            pub(crate) fn clone_c2n2() {
+                super::order_diff(2, 2, 2)
+            }
+            #[kani::proof]
+            #[kani::unwind(9)]
+            pub(crate) fn purge_c3n3() {
+                super::order_diff(3, 3, 0)
+            }
+            #[kani::proof]
+            #[kani::unwind(9)]
+            pub(crate) fn resize_c3n3() {
+                super::order_diff(3, 3, 1)
             }
         }
         pub(crate) mod cb {
